@@ -160,6 +160,8 @@ class B:
 def build(u, variant=None):
     if variant == "query":
         return build_query(u)
+    if variant == "func":
+        return build_func(u)
     u.emit("use vstd::prelude::*;\nuse vstd::std_specs::iter::IteratorSpec;\nverus! {\n")
     for n in OPAQUE:
         u.emit("#[verifier::external_body]\npub struct %s { _opaque: u8 }\n" % n, kind="spec", key="R-opaque:" + n, props=P)
@@ -824,5 +826,82 @@ pub open spec fn sp_updates(a: Option<OnConflictAction>) -> Seq<OnConflictUpdate
     u.fn(R, "impl Returning", "columns", ret="r", props=PQ, key="Returning::columns", vpath="Returning::columns", spec="ensures\n    // the columns given, in order\n    r is Columns, r->Columns_0@ == sp_colrefs(cols@),",
          rules=rr + [make_r_sub("R-collect", r"let cols: Vec<_> = cols\.into_iter\(\)\.map\(\|c\| c\.into_column_ref\(\)\)\.collect\(\);", "let cols: Vec<ColumnRef> = vmap_colrefs(cols);")])
     u.fn(R, "impl Returning", "expr", ret="r", props=PQ, rules=rr, key="Returning::expr", vpath="Returning::expr", spec="ensures r is Exprs, r->Exprs_0@ == seq![expr.sp_into()],")
+    u.emit("}\n")
+    u.emit("} // verus!\nfn main() {}\n")
+
+
+# =====================================================================================================================================
+# variant `func`  ->  C01 / C08: the function-call constructors (Func::*, PgFunc::*): every argument at the position it was given for
+# =====================================================================================================================================
+FUNC_TRAITS = r"""
+pub trait IntoIden: Sized { spec fn sp_iden(self) -> DynIden; fn into_iden(self) -> (r: DynIden) ensures r == self.sp_iden(); }
+pub trait VInto<T>: Sized { spec fn sp_into(self) -> T; fn into(self) -> (r: T) ensures r == self.sp_into(); }
+impl VInto<SimpleExpr> for SimpleExpr { open spec fn sp_into(self) -> SimpleExpr { self } fn into(self) -> SimpleExpr { self } }
+// u32 -> Value (macro-generated From; Kani harnesses / unit value): a function of the number
+pub uninterp spec fn sp_value_u32(x: u32) -> Value;
+impl VInto<Value> for u32 { open spec fn sp_into(self) -> Value { sp_value_u32(self) } #[verifier::external_body] fn into(self) -> Value { unimplemented!() } }
+// #[derive(Default)] on FuncArgMod: distinct = false (trusted, R-attr)
+#[verifier::external_body]
+fn vdefault_mod() -> (r: FuncArgMod) ensures r == (FuncArgMod { distinct: false }) { unimplemented!() }
+// vec![Default::default(); n] (std): n copies of the default modifier
+#[verifier::external_body]
+fn vvec_default_mods(n: usize) -> (r: Vec<FuncArgMod>) ensures r@ == Seq::new(n as nat, |i: int| FuncArgMod { distinct: false }) { unimplemented!() }
+pub open spec fn plain_mods(n: nat) -> Seq<FuncArgMod> { Seq::new(n, |i: int| FuncArgMod { distinct: false }) }
+// a call of `f` with exactly these arguments, in this order, none DISTINCT
+pub open spec fn is_call(r: FunctionCall, f: Function, args: Seq<SimpleExpr>) -> bool { r.func == f && r.args@ =~= args && r.mods@ =~= plain_mods(args.len()) }
+"""
+
+
+def build_func(u):
+    u.emit("use vstd::prelude::*;\nverus! {\n")
+    for n in ["DynIden", "Value", "ColumnRef", "UnOper", "BinOper", "SubQueryOper", "SubQueryStatement", "Keyword", "CaseStatement", "PgDateTruncUnit"]:
+        u.emit("#[verifier::external_body]\npub struct %s { _opaque: u8 }\n" % n, kind="spec", key="R-opaque:" + n, props=PQ)
+    u.type_item("src/extension/postgres/func.rs", "enum", "PgFunction", props=PQ)
+    u.type_item("src/func.rs", "enum", "Function", props=PQ)
+    u.type_item("src/func.rs", "struct", "FuncArgMod", props=PQ, keep_derive=("Clone", "Copy"))
+    u.type_item("src/func.rs", "struct", "FunctionCall", props=PQ, rules=[r_vis])
+    u.type_item("src/expr.rs", "enum", "SimpleExpr", props=PQ)
+    u.spec(FUNC_TRAITS, "builders::func-traits", props=PQ)
+    FR = "src/func.rs"
+    r_vis2 = make_r_sub("R-vis", r"pub\(crate\) fn", "pub fn", min_count=0)
+    rg = [r_vis2, r_into_q, r_iter_param, make_r_sub("R-attr", r"Default::default\(\)", "vdefault_mod()", min_count=0)]
+    u.emit("impl FunctionCall {\n")
+    u.fn(FR, "impl FunctionCall", "new", ret="r", props=PQ, rules=rg, key="FunctionCall::new", vpath="FunctionCall::new", spec="ensures r.func == func, r.args@.len() == 0, r.mods@.len() == 0,")
+    u.fn(FR, "impl FunctionCall", "arg_with", ret="r", props=PQ, rules=rg + [r_mutself], key="FunctionCall::arg_with", vpath="FunctionCall::arg_with",
+         spec="ensures\n    // one more argument, AFTER the ones already given, with its modifier\n    r.func == self.func, r.args@ == self.args@.push(arg.sp_into()), r.mods@ == self.mods@.push(mod_),")
+    u.fn(FR, "impl FunctionCall", "arg", ret="r", props=PQ, rules=rg, key="FunctionCall::arg", vpath="FunctionCall::arg",
+         spec="ensures r.func == self.func, r.args@ == self.args@.push(arg.sp_into()), r.mods@ == self.mods@.push(FuncArgMod { distinct: false }),")
+    u.fn(FR, "impl FunctionCall", "args", ret="r", props=PQ, key="FunctionCall::args", vpath="FunctionCall::args",
+         rules=rg + [make_r_sub("R-collect", r"args\.into_iter\(\)\.collect\(\)", "args"), make_r_sub("R-collect", r"vec!\[vdefault_mod\(\); self\.args\.len\(\)\]", "vvec_default_mods(self.args.len())"), r_mutself],
+         spec="ensures\n    // the arguments given, in the order given (replacing any earlier ones)\n    r.func == self.func, r.args@ == args@, r.mods@ == plain_mods(args@.len()),")
+    u.emit("}\n")
+    r_arr = make_r_sub("R-collect", r"\.args\(\[([^\]]*)\]\)", r".args(vec![\1])", min_count=0)     # an array literal given to `args`: the list of its elements
+    rf = rg + [r_arr, make_r_sub("R-inherent", r"^(\s*)pub fn", r"\1fn", flags=re.M, min_count=0)]
+
+    def one(nm, var, args, block="impl Func", path=FR, extra=""):
+        seq = "seq![%s]" % ", ".join(args) if args else "Seq::<SimpleExpr>::empty()"
+        u.fn(path, block, nm, ret="r", props=PQ, rules=rf, key="%s::%s" % (block[5:], nm), vpath="%s::%s" % (block[5:], nm),
+             spec="ensures\n    // the function the constructor is named after; every argument at the position it was given for\n    is_call(r, %s, %s),%s" % (var, seq, extra),
+             proofs={"body-end": "proof { assert(r_.mods@ =~= plain_mods(r_.args@.len())); }"} if False else None)
+    u.emit("pub struct Func;\nimpl Func {\n")
+    u.fn(FR, "impl Func", "cust", ret="r", props=PQ, rules=rf, key="Func::cust", vpath="Func::cust", spec="ensures is_call(r, Function::Custom(func.sp_iden()), Seq::<SimpleExpr>::empty()),")
+    for nm in ["max", "min", "sum", "avg", "abs", "count", "char_length", "lower", "upper", "bit_and", "bit_or", "round", "md5"]:
+        one(nm, "Function::" + "".join(w.capitalize() for w in nm.split("_")), ["expr.sp_into()"])
+    u.fn(FR, "impl Func", "count_distinct", ret="r", props=PQ, rules=rf, key="Func::count_distinct", vpath="Func::count_distinct",
+         spec="ensures r.func == Function::Count, r.args@ == seq![expr.sp_into()], r.mods@ == seq![FuncArgMod { distinct: true }],")
+    for nm, var in [("greatest", "Greatest"), ("least", "Least"), ("coalesce", "Coalesce")]:
+        u.fn(FR, "impl Func", nm, ret="r", props=PQ, rules=rf, key="Func::" + nm, vpath="Func::" + nm, spec="ensures is_call(r, Function::%s, args@)," % var)
+    one("if_null", "Function::IfNull", ["a.sp_into()", "b.sp_into()"])
+    one("round_with_precision", "Function::Round", ["a.sp_into()", "b.sp_into()"])
+    one("random", "Function::Random", [])
+    u.emit("}\n")
+    # Postgres: to_tsquery([config regconfig,] query text) and its siblings take the configuration FIRST (PostgreSQL 16, 9.13 / 12.3)
+    PF = "src/extension/postgres/func.rs"
+    u.emit("pub struct PgFunc;\nimpl PgFunc {\n")
+    for nm, var in [("to_tsquery", "ToTsquery"), ("to_tsvector", "ToTsvector"), ("phraseto_tsquery", "PhrasetoTsquery"), ("plainto_tsquery", "PlaintoTsquery"), ("websearch_to_tsquery", "WebsearchToTsquery")]:
+        u.fn(PF, "impl PgFunc", nm, ret="r", props=PQ, rules=rf + [make_r_sub("R-into", r"SimpleExpr::Value\(config\.into\(\)\)", "SimpleExpr::Value(VInto::<Value>::into(config))")], key="PgFunc::" + nm, vpath="PgFunc::" + nm,
+             spec="ensures\n    // %s([config,] text): the configuration, when given, is the FIRST argument\n    regconfig is Some ==> is_call(r, Function::PgFunction(PgFunction::%s), seq![SimpleExpr::Value(sp_value_u32(regconfig->Some_0)), expr.sp_into()]),\n    regconfig is None ==> is_call(r, Function::PgFunction(PgFunction::%s), seq![expr.sp_into()])," % (nm, var, var))
+    for nm, var in [("ts_rank", "TsRank"), ("ts_rank_cd", "TsRankCd")]:
+        one(nm, "Function::PgFunction(PgFunction::%s)" % var, ["vector.sp_into()", "query.sp_into()"], block="impl PgFunc", path=PF)
     u.emit("}\n")
     u.emit("} // verus!\nfn main() {}\n")
